@@ -1066,7 +1066,21 @@ class _Cutter(ast.NodeTransformer):
 def instrument(module_obj, modname, qualname, loop_specs, extra_globals=None):
     """Compile `modname:qualname` from the working tree with the loops named in loop_specs
     (keys: ordinal of the loop in source order inside the function) replaced by invariant cuts.
-    Returns (function object, proxy) - set proxy.ctx before each call."""
+    Returns (function object, proxy) - set proxy.ctx before each call.
+    If the contract cannot be anchored (function gone, loop ordinal gone, loop of a shape that cannot be cut) the returned
+    function raises Undecided('contract not anchored ...') when called: every obligation that needs it is undecided,
+    the other groups of the check still run."""
+    try:
+        return _instrument(module_obj, modname, qualname, loop_specs, extra_globals)
+    except (loader.MissingCode, NotImplementedError) as e:
+        msg = "contract not anchored: %s:%s - %s (the loop contract has to be re-anchored)" % (modname, qualname, e)
+
+        def not_anchored(*a, **k):
+            raise Undecided(msg)
+        return not_anchored, _CtxProxy()
+
+
+def _instrument(module_obj, modname, qualname, loop_specs, extra_globals=None):
     node = copy.deepcopy(loader.find_def(modname, qualname))
     loops = _loops_in_order(node)
     targets = {}
